@@ -2359,6 +2359,7 @@ pub fn flat_bm25_search(
     batch: RecordBatch,
     doc_col: &str,
     query_tokens: &Tokens,
+    operator: Operator,
     tokenizer: &mut Box<dyn LanceTokenizer>,
     scorer: &mut MemBM25Scorer,
 ) -> std::result::Result<RecordBatch, DataFusionError> {
@@ -2385,6 +2386,16 @@ pub fn flat_bm25_search(
                 .and_modify(|count| *count += 1)
                 .or_insert(1);
         }
+        // an AND query only matches the documents that contain all the query tokens,
+        // the same as searching with the index
+        if operator == Operator::And
+            && !query_tokens
+                .into_iter()
+                .all(|token| doc_token_count.contains_key(token))
+        {
+            scores.push(0.0);
+            continue;
+        }
         let mut score = 0.0;
         for token in query_tokens {
             let freq = doc_token_count.get(token).copied().unwrap_or_default() as f32;
@@ -2406,6 +2417,7 @@ pub fn flat_bm25_search_stream(
     input: SendableRecordBatchStream,
     doc_col: String,
     query: String,
+    operator: Operator,
     index: &Option<InvertedIndex>,
 ) -> SendableRecordBatchStream {
     let mut tokenizer = match index {
@@ -2444,7 +2456,14 @@ pub fn flat_bm25_search_stream(
     let stream = input.map(move |batch| {
         let batch = batch?;
 
-        let batch = flat_bm25_search(batch, &doc_col, &tokens, &mut tokenizer, &mut bm25_scorer)?;
+        let batch = flat_bm25_search(
+            batch,
+            &doc_col,
+            &tokens,
+            operator,
+            &mut tokenizer,
+            &mut bm25_scorer,
+        )?;
 
         // filter out rows with score 0
         let score_col = batch[SCORE_COL].as_primitive::<Float32Type>();
@@ -2480,6 +2499,45 @@ mod tests {
     use crate::scalar::lance_format::LanceIndexStore;
 
     use super::*;
+
+    #[test]
+    fn test_flat_bm25_search_operator() {
+        let schema = Arc::new(Schema::new(vec![
+            Field::new("doc", DataType::Utf8, true),
+            ROW_ID_FIELD.clone(),
+        ]));
+        let batch = RecordBatch::try_new(
+            schema,
+            vec![
+                Arc::new(arrow_array::StringArray::from(vec!["ant bee", "ant", "cat"])),
+                Arc::new(UInt64Array::from(vec![0, 1, 2])),
+            ],
+        )
+        .unwrap();
+        let mut tokenizer = InvertedIndexParams::default().build().unwrap();
+        let query_tokens = collect_query_tokens("ant bee", &mut tokenizer, None);
+        for (operator, expected) in [
+            (Operator::And, [true, false, false]),
+            (Operator::Or, [true, true, false]),
+        ] {
+            let mut scorer = MemBM25Scorer::new(0, 0, HashMap::new());
+            let scored = flat_bm25_search(
+                batch.clone(),
+                "doc",
+                &query_tokens,
+                operator,
+                &mut tokenizer,
+                &mut scorer,
+            )
+            .unwrap();
+            let matched = scored[SCORE_COL]
+                .as_primitive::<Float32Type>()
+                .iter()
+                .map(|score| score.unwrap() > 0.0)
+                .collect::<Vec<_>>();
+            assert_eq!(matched, expected, "operator {:?}", operator);
+        }
+    }
 
     #[tokio::test]
     async fn test_posting_builder_remap() {
